@@ -22,8 +22,8 @@ Trace == ndJsonDeserialize("trace.ndjson")
 
 Note(b, x) == IF Len(b) < 100 THEN Append(b, x) ELSE Append(b, [event |-> x.event])
 
-VARIABLES l, bad
-vars == <<l, bad>>
+VARIABLES l, bad, judged
+vars == <<l, bad, judged>>
 
 BackWhy(what, subj, r) ==
   IF ~r.ok THEN <<what \o ": rejected">>
@@ -37,6 +37,21 @@ AzWhy(ev, subj) ==
             THEN <<"outcome differs from the specification">> ELSE <<>>)
       ELSE <<>>)
 
+\* the recorded document in other spellings of the format (explicit scope entities, split pattern literals,
+\* member order, explicit empty members, escapes and white space, value <-> constructor-call forms): the
+\* specification reads every respelled document itself; where it reads the subject's policy, the real decoder must
+\* too.  "strict" respellings are the ones the format defines as the same document -- if the specification reads
+\* something else from one of those, the harness (not the code) is wrong and says so.
+AltsWhy(alts, subj, az1) ==
+  LET Judge(a) ==
+        LET s == FromEst(a.json) IN
+        IF ~s.ok \/ ~SameAst(s.v, subj)
+        THEN (IF a.strict THEN <<"harness: respelling " \o a.how \o " is not the same document for the specification">> ELSE <<>>)
+        ELSE <<"+">> \o BackWhy("respelled (" \o a.how \o ")", subj, a.back)     \* "+": one respelling judged
+             \o (IF a.back.ok /\ a.az # az1 THEN <<"respelled (" \o a.how \o "): authorizes differently">> ELSE <<>>)
+      RECURSIVE AllAlts(_)
+      AllAlts(i) == IF i > Len(alts) THEN <<>> ELSE Judge(alts[i]) \o AllAlts(i + 1)
+  IN AllAlts(1)
 PJsonWhy(ev) ==
   LET o == ev.obs IN
   IF "skip" \in DOMAIN o THEN <<>>
@@ -50,6 +65,7 @@ PJsonWhy(ev) ==
               THEN BackWhy("JSON -> text -> JSON", IF o.cross.ok THEN PolicyFromWire(o.cross.base) ELSE subj, o.cross) ELSE <<>>)
           \o (IF "rejson" \in DOMAIN o /\ o.rejson = "differs" THEN <<"second encoding differs">> ELSE <<>>)
           \o (IF "az" \in DOMAIN o THEN AzWhy(ev, subj) ELSE <<>>)
+          \o (IF "alts" \in DOMAIN o /\ spec.ok /\ SameAst(spec.v, subj) /\ o.back.ok THEN AltsWhy(o.alts, subj, o.az[1]) ELSE <<>>)
 
 SetWhy(ev) ==
   LET o == ev.obs IN
@@ -69,14 +85,16 @@ Why(ev) == IF ev.op = "pjsonset" THEN SetWhy(ev) ELSE PJsonWhy(ev)
 SpecSaw(ev) == IF ev.op = "pjson" /\ "json" \in DOMAIN ev.obs /\ "subject" \in DOMAIN ev.obs
                THEN LET r == FromEst(ev.obs.json) IN IF r.ok THEN [ok |-> TRUE] ELSE [ok |-> FALSE] ELSE [ok |-> FALSE]
 
-Init == l = 1 /\ bad = <<>>
+Init == l = 1 /\ bad = <<>> /\ judged = 0
 Next == /\ l <= Len(Trace)
-        /\ \E w \in {Why(Trace[l])} :
-             bad' = IF w = <<>> THEN bad ELSE Note(bad, [event |-> l, why |-> w])
+        /\ \E raw \in {Why(Trace[l])} :
+             LET w == SelectSeq(raw, LAMBDA x : x # "+") IN
+             /\ bad' = IF w = <<>> THEN bad ELSE Note(bad, [event |-> l, why |-> w])
+             /\ judged' = judged + Len(raw) - Len(w)
         /\ l' = l + 1
 Done == l = Len(Trace) + 1
 WriteOut ==
-  Done => Serialize(ToJson([events |-> Len(Trace), bad |-> bad]) \o "\n", "out.json",
+  Done => Serialize(ToJson([events |-> Len(Trace), bad |-> bad, respellings_judged |-> judged]) \o "\n", "out.json",
                     [format |-> "TXT", charset |-> "UTF-8",
                      openOptions |-> <<"WRITE", "CREATE", "TRUNCATE_EXISTING">>]).exitValue = 0
 =============================================================================
